@@ -206,8 +206,12 @@ static int on_packet(struct ctx *c, struct vp_report *rep, struct rstate *st, co
     struct rts r;
     size_t n = st->npkt;
     rts_parse(pk, &r);
-    R("  pkt%zu T=%llu %s pid=%u cc=%u %s%s af=%s%u%s%s%s payload=%u\n", n, (unsigned long long)T, r.bad ? r.bad : "ok", r.pid, r.cc,
-      r.pusi ? "PUSI " : "", r.has_payload ? "" : "(no payload) ", r.has_af ? "" : "-", r.afl, r.rai ? " RAI" : "", r.di ? " DI" : "", r.pcr_f ? " PCR" : "", r.pay_len);
+    if (render) {
+        char afs[16];
+        if (r.has_af) snprintf(afs, sizeof afs, "%u", r.afl); else snprintf(afs, sizeof afs, "none");
+        R("  pkt%zu T=%llu %s pid=%u cc=%u %s%saf=%s%s%s%s payload=%u\n", n, (unsigned long long)T, r.bad ? r.bad : "ok", r.pid, r.cc,
+          r.pusi ? "PUSI " : "", r.has_payload ? "" : "(no payload) ", afs, r.rai ? " RAI" : "", r.di ? " DI" : "", r.pcr_f ? " PCR" : "", r.pay_len);
+    }
     if (r.bad) FAIL("C15/ts/malformed", "packet %zu: %s (header %02x %02x %02x %02x %02x)", n, r.bad, pk[0], pk[1], pk[2], pk[3], pk[4]);
     else if (r.pid != st->pid) FAIL("C15/ts/pid", "packet %zu carries PID %u, configured %u", n, r.pid, st->pid);
     else if (r.tei || r.tsc || r.prio) FAIL("C15/ts/header-bits", "packet %zu: transport_error=%d scrambling=%u priority=%d", n, r.tei, r.tsc, r.prio);
@@ -349,6 +353,7 @@ static int run(const uint8_t *tape_, size_t len, struct vp_report *rep, unsigned
         else if (z < 226) sz = 1 + (thorough ? tp_u32(&t) % 70000 : tp_u16(&t) % 9000);
         else sz = 65535 + 6 - (z & 1 ? 19 : z & 2 ? 14 : 9) + (int)(tp_u8(&t) % 13) - 6;      /* around the 16-bit PES length limit */
         if (!video && sz > cap_nonvideo) sz = cap_nonvideo ? cap_nonvideo : 1;      /* PES_packet_length 0 is reserved to video */
+        if (total + sz > (thorough ? 400000u : 160000u)) sz = 1 + sz % 1500;        /* bound the case */
         d->size = sz;
         d->fill = tp_u8(&t);
         uint8_t a = tp_u8(&t);
